@@ -106,8 +106,11 @@ Definition allocate_mini_sector (value : N) : M N :=
        else ret tt) ;;
     do s <- get;
     let new_ms := lenN (minifat s) in
-    (* the mini stream grows first, then the MiniFAT entry is added *)
-    append_mini_sector ;;
+    (* the mini stream grows first (unless it already reaches past the new mini sector: a
+       foreign file can end in free mini sectors whose MiniFAT entries were trimmed at open),
+       then the MiniFAT entry is added *)
+    do r <- root_entry;
+    (if d_len r <? (new_ms + 1) * MINI_SECTOR_LEN then append_mini_sector else ret tt) ;;
     set_minifat new_ms value ;;
     ret new_ms
   end.
